@@ -30,7 +30,9 @@ func unhex(s string) ([]byte, bool) {
 	return b, err == nil
 }
 
-func resErr(err error) string { return classify(err) + " # " + strings.ReplaceAll(err.Error(), "\n", " | ") }
+func resErr(err error) string {
+	return classify(err) + " # " + strings.ReplaceAll(err.Error(), "\n", " | ")
+}
 
 type state struct {
 	extra map[string]interface{}
